@@ -67,6 +67,13 @@ def site_label(method, line):
     return None
 
 
+bad_clf = [None, "?"]
+
+
+def reset(sx):
+    bad_clf[:] = [None, "?"]
+
+
 def make_hook(sx, log, bad):
     """the obligation at the entry of every driver method.  A failed
     obligation is noted and the run continues, so that the driver calls
@@ -74,6 +81,7 @@ def make_hook(sx, log, bad):
     failure of the path (one forked copy of the path per label)."""
     def hook(dev, method, locked, current, fn, line):
         entry = getattr(dev, "entry", "?")
+        bad_clf[:] = [dev.clf, entry]
         log.append([method, entry, fn, bool(locked), bool(current)])
         where = "%s@%s/%s" % (method, entry, fn)
         site = site_label(method, line)
@@ -86,6 +94,8 @@ def make_hook(sx, log, bad):
             labels.append("driver-call-without-lock:" + where)
         if not current:
             labels.append("driver-call-on-device-not-installed:" + where)
+        sx.check(not labels, "(noted; reported at the end of the path)") \
+            if not labels else None
         for l in labels:
             if l not in bad:
                 bad.append(l)
@@ -96,6 +106,15 @@ def run(sx, scn, **params):
     log, bad = [], []
     getattr(C, scn)(sx, mode="lock", hook=make_hook(sx, log, bad), **params)
     sx.reach("entry:" + scn)
+    clf, entry = bad_clf
+    if clf is not None and clf.lock.deadlocks:
+        bad.append("lock-acquired-while-held:" + entry)
+    if clf is not None and clf.lock.locked():
+        # nobody is inside the frontend any more: a lock that is still held
+        # blocks every other thread for ever
+        bad.append("lock-left-held-after:" + entry)
+    else:
+        sx.check(True, "lock released")
     if bad:
         sx.check(False, bad[sx.pick("report", list(range(len(bad))))])
     return log
@@ -147,6 +166,27 @@ MUST_REACH = ["site:%s:%d" % (n, lo) for n, lo, hi in DIRECT] + \
     ["entry:" + s for s in ("connect_scn", "sense_scn", "listen_scn",
                             "stale_scn", "lifecycle_scn")]
 
-BOUNDS = {"quick": "", "thorough": ""}
-OUTSIDE = []
-ASSUMPTIONS = []
+BOUNDS = {
+    "quick": "every driver call on every path of the C18 scenarios (quick "
+             "bounds of harness/c18_connect.py: connect() with all option "
+             "subsets, callback results, terminate polls, tag/reader/peer/"
+             "fault scripts; sense/listen/exchange/stale-target/open/close/"
+             "size scenarios) plus connect() on a frontend built by the real "
+             "open(); per driver call: clf.lock.locked() and clf.device is "
+             "the called driver (for device.connect(): no driver installed); "
+             "per scenario: lock released at the end, never acquired while "
+             "held; per syntactic call site of nfc/clf/__init__.py: reached",
+    "thorough": "as quick with the thorough bounds of harness/c18_connect.py",
+}
+OUTSIDE = [
+    "the lock implementation itself and real multi-thread schedules: the claim is 'lock held and device current at every driver call site/path', from which mutual exclusion follows by the lock's contract",
+    "drivers used directly by an application, and attribute reads of the driver in ContactlessFrontend.__str__ (vendor_name/product_name/path, no device I/O)",
+    "what a real driver does inside device.connect()/close() (transport open/close) - only that the frontend calls them under the lock",
+    "paths outside the C18 bounds (tag types other than a generic Type 2 Tag, LLCP traffic beyond SYMM/DISC)",
+]
+ASSUMPTIONS = [
+    "single harness thread: clf.lock.locked() at the entry of a driver method means held by the calling thread",
+    "clf.lock is env.recdevice.GuardLock wrapping a threading.Lock (same semantics; raises instead of blocking on self-deadlock)",
+    "nfc.clf.device.connect is replaced by a stub that hands out the RecDevice (recorded as driver call 'connect')",
+    "scenarios, environment scripts and fault model of harness/c18_connect.py / env/recdevice.py",
+]
